@@ -749,6 +749,6 @@ ASSUMPTIONS = [
     "threads run in lock-step and switch only at environment interactions (select, blocking recv, Event.wait, sleep, join)",
     "simnet: select() reports readable iff the fake kernel buffer is non-empty (TLS flavour: iff an undecrypted record is "
     "queued; pending() = decrypted unread bytes); a timed-out wait takes exactly its timeout",
-    "simnet: send() accepts everything at once; EAGAIN/SSLWantRead never occur",
+    "simnet: send() accepts everything at once unless the server spec scripts a write fault (send_fault: timeout / broken pipe at the n-th write after the handshake); EAGAIN/SSLWantRead never occur on the virtual network (would-block faults are exercised on the scripted FakeSock of harness/common.py: C03 S-part, C07 G-one, C12 W-eagain)",
     "inspect.stack() (used only inside log messages) is stubbed",
 ]
